@@ -1,4 +1,4 @@
-use std::collections::HashMap;
+use std::collections::{HashMap, HashSet};
 
 use crate::{
     grammar::{self, ItemPath},
@@ -8,6 +8,9 @@ use crate::{
 #[derive(Debug)]
 pub struct TypeRegistry {
     types: HashMap<ItemPath, ItemDefinition>,
+    /// Paths of items that will be generated while resolving (vftable types).
+    /// They already take part in name lookup, but can't be used until they exist.
+    reserved: HashSet<ItemPath>,
     pointer_size: usize,
 }
 
@@ -15,6 +18,7 @@ impl TypeRegistry {
     pub(crate) fn new(pointer_size: usize) -> TypeRegistry {
         TypeRegistry {
             types: HashMap::new(),
+            reserved: HashSet::new(),
             pointer_size,
         }
     }
@@ -70,26 +74,37 @@ impl TypeRegistry {
         self.types.insert(type_.path.clone(), type_);
     }
 
+    pub(crate) fn reserve(&mut self, item_path: ItemPath) {
+        self.reserved.insert(item_path);
+    }
+
+    fn is_known(&self, item_path: &ItemPath) -> bool {
+        self.types.contains_key(item_path) || self.reserved.contains(item_path)
+    }
+
     pub(crate) fn resolve_string(&self, scope: &[ItemPath], name: &str) -> Option<Type> {
         // todo: take scope_modules and scope_types instead of scope so that we don't need
         // to do this partitioning
         let (scope_types, scope_modules): (Vec<&ItemPath>, Vec<&ItemPath>) =
-            scope.iter().partition(|ip| self.types.contains_key(ip));
+            scope.iter().partition(|ip| self.is_known(ip));
 
         // If we find the relevant type within our scope, take the last one
         scope_types
             .into_iter()
             .rev()
             .find(|st| st.last().map(|i| i.as_str()) == Some(name))
-            .map(|ip| Type::Raw(ip.clone()))
+            .cloned()
             .or_else(|| {
                 // Otherwise, search our scopes
                 std::iter::once(&ItemPath::empty())
                     .chain(scope_modules.iter().copied())
                     .map(|ip| ip.join(name.into()))
-                    .find(|ip| self.types.contains_key(ip))
-                    .map(Type::Raw)
+                    .find(|ip| self.is_known(ip))
             })
+            // The name is bound now, regardless of what has been resolved so far;
+            // if it's bound to an item that has yet to be generated, we have to wait for it.
+            .filter(|ip| self.types.contains_key(ip))
+            .map(Type::Raw)
     }
 
     pub(crate) fn resolve_grammar_type(
